@@ -35,6 +35,8 @@ def run(ctx: Ctx) -> None:
     _memo.rule_memo_sound(ctx, ['graphiq/backends/lc_equivalence_check.py', 'graphiq/backends/stabilizer/functions/local_cliff_equi_check.py', 'graphiq/backends/graph/state.py'])
     _memo.rule_falsy_zero(ctx, ['graphiq/backends/lc_equivalence_check.py', 'graphiq/backends/stabilizer/functions/local_cliff_equi_check.py', 'graphiq/backends/graph/state.py'])
     _memo.rule_arg_names(ctx, ['graphiq/backends/lc_equivalence_check.py', 'graphiq/backends/stabilizer/functions/local_cliff_equi_check.py', 'graphiq/backends/graph/state.py'])
+    _memo.rule_fixed_width(ctx, ['graphiq/backends/lc_equivalence_check.py', 'graphiq/backends/stabilizer/functions/local_cliff_equi_check.py', 'graphiq/backends/graph/state.py'])
+    _memo.rule_paste_incomplete(ctx, ['graphiq/backends/lc_equivalence_check.py', 'graphiq/backends/stabilizer/functions/local_cliff_equi_check.py', 'graphiq/backends/graph/state.py'])
     repo = ctx.repo
     tables.rule_gl22(ctx)
     rule_token_order(ctx)
